@@ -52,6 +52,9 @@ type FuncContract struct {
 	Monitors     []MonitorSpec
 	Opaque       map[string]bool // callee names to treat as opaque events instead of inlining
 	Havocs       map[string][]string
+	Observes     []Clause // Label = name
+	ReplayAssume []Clause
+	Replay       string
 }
 
 type MonitorSpec struct {
@@ -84,15 +87,23 @@ type Lemma struct {
 	Src      string
 }
 
+type Macro struct {
+	Name   string
+	Params []string
+	Body   ast.Expr
+	Src    string
+}
+
 type ContractDB struct {
 	Funcs  map[string]*FuncContract // key: pkgpath + "::" + relname
+	Macros map[string]*Macro
 	Specs  map[string]*SpecFunc
 	Lemmas []*Lemma
 	Files  []string
 }
 
 func newContractDB() *ContractDB {
-	return &ContractDB{Funcs: map[string]*FuncContract{}, Specs: map[string]*SpecFunc{}}
+	return &ContractDB{Funcs: map[string]*FuncContract{}, Specs: map[string]*SpecFunc{}, Macros: map[string]*Macro{}}
 }
 
 func (db *ContractDB) lookup(pkg, name string) *FuncContract {
@@ -341,6 +352,31 @@ func (db *ContractDB) parseFile(path, pkgPath string, trusted bool) error {
 				return fmt.Errorf("%s: duplicate spec function %s", src, sf.Name)
 			}
 			db.Specs[sf.Name] = sf
+		case "macro":
+			i := strings.Index(rest, "(")
+			j := -1
+			if i >= 0 {
+				j = matchParen(rest, i)
+			}
+			k := strings.Index(rest, "=")
+			if i < 0 || j < 0 || k < j {
+				return fmt.Errorf("%s: macro name(params) = expr expected", src)
+			}
+			mc := &Macro{Name: strings.TrimSpace(rest[:i]), Src: src}
+			for _, pn := range strings.Split(rest[i+1:j], ",") {
+				if pn = strings.TrimSpace(pn); pn != "" {
+					mc.Params = append(mc.Params, pn)
+				}
+			}
+			body, err := parseSpecExpr(rest[k+1:])
+			if err != nil {
+				return fmt.Errorf("%s: %v", src, err)
+			}
+			mc.Body = body
+			if _, dup := db.Macros[mc.Name]; dup {
+				return fmt.Errorf("%s: duplicate macro %s", src, mc.Name)
+			}
+			db.Macros[mc.Name] = mc
 		case "lemma":
 			lm, err := parseLemmaHead(rest, src)
 			if err != nil {
@@ -402,6 +438,24 @@ func (db *ContractDB) parseFile(path, pkgPath string, trusted bool) error {
 					return fmt.Errorf("%s: %v", src, err)
 				}
 				cur.Lets = append(cur.Lets, Clause{Kind: "let", Label: name, Text: rest[i+1:], Expr: e, Src: src})
+			case "observe":
+				i := strings.Index(rest, "=")
+				if i < 0 {
+					return fmt.Errorf("%s: observe needs name = expr", src)
+				}
+				e, err := parseSpecExpr(rest[i+1:])
+				if err != nil {
+					return fmt.Errorf("%s: %v", src, err)
+				}
+				cur.Observes = append(cur.Observes, Clause{Kind: "observe", Label: strings.TrimSpace(rest[:i]), Text: rest[i+1:], Expr: e, Src: src})
+			case "replay":
+				cur.Replay = rest
+			case "replay-assume":
+				c, err := mkClause(word)
+				if err != nil {
+					return err
+				}
+				cur.ReplayAssume = append(cur.ReplayAssume, c)
 			case "modifies":
 				cur.HasMod = true
 				for _, it := range splitTop(rest, ",") {
